@@ -234,7 +234,11 @@ class SigmaString(SigmaType):
                 if e_len > start:
                     # else:
                     if end < e_len:  # end lies within this string part
-                        return self.__class__(e[start : cast(int, end)])
+                        # The part is plain text, it must not be parsed again: a literal '*', '?'
+                        # or backslash in it would turn into a wildcard or an escape character.
+                        part = self.__class__()
+                        part.s = [e[start : cast(int, end)]] if start < end else []
+                        return part
                     else:  # end lies behind the current string part
                         result.append(e[start:])
                         # end -= start
